@@ -10,9 +10,9 @@ import (
 	"sort"
 	"strings"
 
+	"context"
 	"github.com/cgi-fr/jsonline/pkg/cast"
 	"github.com/cgi-fr/jsonline/pkg/jsonline"
-	"context"
 	"net"
 	"syscall"
 )
